@@ -4,7 +4,7 @@ import RreModel.C15.Clone
 /-
 Driver for C15.
   sequential case  := `S <K> <ops>` (snapshot after the last call) | `T <K> <ops>` (snapshot after every call)
-     ops           := comma list of  a<n>.<sal> | A<n>.<sal> (added disabled) | r<n> | e<n> | d<n> | c      (`-` = none)
+     ops           := comma list of  a<n>.<sal>[.<q>] | A<n>.<sal>[.<q>] (added disabled; q = attribute row, ignored) | r<n> | e<n> | d<n> | c      (`-` = none)
      the rule added by the op at position i carries tag i
      obs           := step;step;…   step := <out>:<version>[/<snap>]
                       | y  (`spare = kb; kb = kb.clone()`; `XOp.clone`, model `cloneKB`, specification `Spec.clone`)
@@ -28,6 +28,9 @@ def splitList (s : String) (sep : String) : List String := if s = "-" then [] el
 def parseNameSal (s : String) : Option (Nat × Int) :=
   match s.splitOn "." with
   | [n, v] => do pure (← n.toNat?, ← v.toInt?)
+  -- optional third field = row of the harness' attribute table (agenda group, activation group, no-loop, dates, …):
+  -- the knowledge base must ignore it, so the model does not read it
+  | [n, v, q] => do let _ ← q.toNat?; pure (← n.toNat?, ← v.toInt?)
   | _ => none
 
 def parseOp (tag : Nat) (s : String) : Option Op :=
